@@ -2,7 +2,8 @@
 (* Wider specification, W5, at design level: the rent escrow of dynamic tick arrays is an INDUCTIVE invariant of the
    rules by which lamports move between positions and tick arrays.  Apalache checks  Init => IndInv,
    IndInv /\ Next => IndInv'  and  IndInv => RentExempt  symbolically: for every tick rent R > 0, every base rent of a
-   position / an array, every assignment of ranges over the arrays and every mix of fixed and dynamic arrays.
+   position / an array, every assignment of ranges over the arrays and every mix of fixed and dynamic arrays
+   (instance: 6 ticks in 3 arrays of 2, 2 positions - with 8 ticks / 4 arrays / 3 positions the inductive step did not finish in 90 minutes).
 
    The rules (manager/tick_array_manager.rs, pinocchio/ported/manager_tick_array_manager.rs):
      open             the position account is funded with its own rent plus the rent of TWO ticks;
@@ -34,23 +35,24 @@ VARIABLES
   \* @type: Int -> { exists: Bool, dyn: Bool, lam: Int };
   arr
 
-ConstInit == Ticks = -4..3 /\ PosIds = 1..3 /\ R \in Nat /\ R > 0 /\ PBase \in Nat /\ ABase \in Nat
+ConstInit == Ticks = -2..3 /\ PosIds = 1..2 /\ R \in Nat /\ R > 0 /\ PBase \in Nat /\ ABase \in Nat
 
-Arrays == {-2, -1, 0, 1}                \* two ticks per array: array a holds ticks 2a and 2a + 1
+Arrays == {-1, 0, 1}                    \* two ticks per array: array a holds ticks 2a and 2a + 1
 ArrOf(t) == IF t >= 0 THEN t \div 2 ELSE 0 - ((1 - t) \div 2)
 
-\* 1 if tick t lies in an existing DYNAMIC array
-Dyn(t) == IF arr[ArrOf(t)].exists /\ arr[ArrOf(t)].dyn THEN 1 ELSE 0
+\* the tick rent that goes with tick t: R if t lies in an existing DYNAMIC array, nothing otherwise
+\* (written without multiplication by the symbolic R: everything stays linear integer arithmetic for the solver)
+Dyn(t) == IF arr[ArrOf(t)].exists /\ arr[ArrOf(t)].dyn THEN R ELSE 0
 
-\* number of (position with liquidity, bound) pairs whose bound lies in array a
+\* R x number of (position with liquidity, bound) pairs whose bound lies in array a
 \* @type: (Int) => Int;
 Pairs(a) ==
-  ApaFoldSet(LAMBDA acc, i : acc + (IF pos[i].open /\ pos[i].has /\ ArrOf(pos[i].lo) = a THEN 1 ELSE 0)
-                                 + (IF pos[i].open /\ pos[i].has /\ ArrOf(pos[i].up) = a THEN 1 ELSE 0), 0, PosIds)
-\* number of initialized ticks of array a
+  ApaFoldSet(LAMBDA acc, i : acc + (IF pos[i].open /\ pos[i].has /\ ArrOf(pos[i].lo) = a THEN R ELSE 0)
+                                 + (IF pos[i].open /\ pos[i].has /\ ArrOf(pos[i].up) = a THEN R ELSE 0), 0, PosIds)
+\* R x number of initialized ticks of array a
 \* @type: (Int) => Int;
 Inits(a) ==
-  ApaFoldSet(LAMBDA acc, t : acc + (IF ArrOf(t) = a /\ (\E i \in PosIds : pos[i].open /\ pos[i].has /\ (pos[i].lo = t \/ pos[i].up = t)) THEN 1 ELSE 0), 0, Ticks)
+  ApaFoldSet(LAMBDA acc, t : acc + (IF ArrOf(t) = a /\ (\E i \in PosIds : pos[i].open /\ pos[i].has /\ (pos[i].lo = t \/ pos[i].up = t)) THEN R ELSE 0), 0, Ticks)
 
 TypeOK ==
   /\ DOMAIN pos = PosIds /\ DOMAIN arr = Arrays
@@ -59,15 +61,15 @@ TypeOK ==
   /\ \A i \in PosIds : (pos[i].open /\ pos[i].has) => (arr[ArrOf(pos[i].lo)].exists /\ arr[ArrOf(pos[i].up)].exists)
 
 PositionHoldsIdleRent ==
-  \A i \in PosIds : pos[i].open => pos[i].lam = PBase + R * (2 - (IF pos[i].has THEN Dyn(pos[i].lo) + Dyn(pos[i].up) ELSE 0))
+  \A i \in PosIds : pos[i].open => pos[i].lam = PBase + R + R - (IF pos[i].has THEN Dyn(pos[i].lo) + Dyn(pos[i].up) ELSE 0)
 ArrayHoldsRentInUse ==
-  \A a \in Arrays : (arr[a].exists /\ arr[a].dyn) => arr[a].lam = ABase + R * Pairs(a)
+  \A a \in Arrays : (arr[a].exists /\ arr[a].dyn) => arr[a].lam = ABase + Pairs(a)
 IndInv == TypeOK /\ PositionHoldsIdleRent /\ ArrayHoldsRentInUse
 
-RentExempt == \A a \in Arrays : (arr[a].exists /\ arr[a].dyn) => arr[a].lam >= ABase + R * Inits(a)
+RentExempt == \A a \in Arrays : (arr[a].exists /\ arr[a].dyn) => arr[a].lam >= ABase + Inits(a)
 
 Init ==
-  /\ pos = [i \in PosIds |-> [open |-> FALSE, lo |-> -4, up |-> 3, has |-> FALSE, lam |-> 0]]
+  /\ pos = [i \in PosIds |-> [open |-> FALSE, lo |-> -2, up |-> 3, has |-> FALSE, lam |-> 0]]
   /\ arr = [a \in Arrays |-> [exists |-> FALSE, dyn |-> FALSE, lam |-> 0]]
 
 InitArray(a, d) ==
@@ -77,7 +79,7 @@ InitArray(a, d) ==
 
 Open(i, lo, up) ==
   /\ ~pos[i].open /\ lo < up
-  /\ pos' = [pos EXCEPT ![i] = [open |-> TRUE, lo |-> lo, up |-> up, has |-> FALSE, lam |-> PBase + 2 * R]]
+  /\ pos' = [pos EXCEPT ![i] = [open |-> TRUE, lo |-> lo, up |-> up, has |-> FALSE, lam |-> PBase + R + R]]
   /\ UNCHANGED arr
 
 \* lamports an array gains (sign +1) or loses (-1) when position bounds (lo, up) are funded / released
@@ -86,13 +88,13 @@ Moved(a, lo, up) == (IF ArrOf(lo) = a THEN R ELSE 0) + (IF ArrOf(up) = a THEN R 
 FirstDeposit(i) ==
   LET p == pos[i] IN
   /\ p.open /\ ~p.has /\ arr[ArrOf(p.lo)].exists /\ arr[ArrOf(p.up)].exists
-  /\ pos' = [pos EXCEPT ![i] = [open |-> TRUE, lo |-> p.lo, up |-> p.up, has |-> TRUE, lam |-> p.lam - R * (Dyn(p.lo) + Dyn(p.up))]]
+  /\ pos' = [pos EXCEPT ![i] = [open |-> TRUE, lo |-> p.lo, up |-> p.up, has |-> TRUE, lam |-> p.lam - (Dyn(p.lo) + Dyn(p.up))]]
   /\ arr' = [a \in Arrays |-> IF arr[a].exists /\ arr[a].dyn THEN [exists |-> TRUE, dyn |-> TRUE, lam |-> arr[a].lam + Moved(a, p.lo, p.up)] ELSE arr[a]]
 
 LastWithdrawal(i) ==
   LET p == pos[i] IN
   /\ p.open /\ p.has
-  /\ pos' = [pos EXCEPT ![i] = [open |-> TRUE, lo |-> p.lo, up |-> p.up, has |-> FALSE, lam |-> p.lam + R * (Dyn(p.lo) + Dyn(p.up))]]
+  /\ pos' = [pos EXCEPT ![i] = [open |-> TRUE, lo |-> p.lo, up |-> p.up, has |-> FALSE, lam |-> p.lam + (Dyn(p.lo) + Dyn(p.up))]]
   /\ arr' = [a \in Arrays |-> IF arr[a].exists /\ arr[a].dyn THEN [exists |-> TRUE, dyn |-> TRUE, lam |-> arr[a].lam - Moved(a, p.lo, p.up)] ELSE arr[a]]
 
 ResetRange(i, lo, up) ==
@@ -101,14 +103,15 @@ ResetRange(i, lo, up) ==
   /\ UNCHANGED arr
 
 Reposition(i, lo, up) ==
-  LET p   == pos[i]
-      out == IF p.has THEN 1 ELSE 0          \* the old range is released only if it had liquidity
+  LET p    == pos[i]
+      \* the old range is released only if it had liquidity
+      back == IF p.has THEN Dyn(p.lo) + Dyn(p.up) ELSE 0
   IN
   /\ p.open /\ lo < up /\ arr[ArrOf(lo)].exists /\ arr[ArrOf(up)].exists
   /\ pos' = [pos EXCEPT ![i] = [open |-> TRUE, lo |-> lo, up |-> up, has |-> TRUE,
-                                 lam |-> p.lam + out * R * (Dyn(p.lo) + Dyn(p.up)) - R * (Dyn(lo) + Dyn(up))]]
+                                 lam |-> p.lam + back - (Dyn(lo) + Dyn(up))]]
   /\ arr' = [a \in Arrays |-> IF arr[a].exists /\ arr[a].dyn
-                              THEN [exists |-> TRUE, dyn |-> TRUE, lam |-> arr[a].lam - out * Moved(a, p.lo, p.up) + Moved(a, lo, up)]
+                              THEN [exists |-> TRUE, dyn |-> TRUE, lam |-> arr[a].lam - (IF p.has THEN Moved(a, p.lo, p.up) ELSE 0) + Moved(a, lo, up)]
                               ELSE arr[a]]
 
 Close(i) ==
@@ -122,7 +125,7 @@ Next ==
   \/ \E i \in PosIds : FirstDeposit(i) \/ LastWithdrawal(i) \/ Close(i)
 
 IndInit ==
-  /\ pos = Gen(3)
-  /\ arr = Gen(4)
+  /\ pos = Gen(2)
+  /\ arr = Gen(3)
   /\ IndInv
 =============================================================================
